@@ -422,6 +422,9 @@ func floorDiv(a, b int64) int64 {
 	return q
 }
 
+// XattrEq compares xattr maps (nil and empty values are equal).
+func XattrEq(a, b map[string][]byte) bool { return xattrEq(a, b) }
+
 func xattrEq(a, b map[string][]byte) bool {
 	if len(a) != len(b) {
 		return false
